@@ -1185,6 +1185,19 @@ class DiskRefsContainer(RefsContainer):
             # errors depending on the specific operating system
             return None
 
+    def _remove_empty_dirs_at(self, filename: bytes) -> None:
+        """Remove empty directories left where a ref file is about to be written.
+
+        A failed or interrupted update of refs/heads/a/b leaves the directory
+        refs/heads/a behind. Like git, do not let an empty directory stand in
+        the way of the ref refs/heads/a. A directory that holds anything is
+        left alone, and the write fails as before.
+        """
+        if os.path.isdir(filename) and not os.path.islink(filename):
+            for dirpath, _dirnames, _filenames in os.walk(filename, topdown=False):
+                with suppress(OSError):
+                    os.rmdir(dirpath)
+
     def _remove_packed_ref(self, name: Ref) -> None:
         if name not in self.get_packed_refs():
             return
@@ -1235,6 +1248,7 @@ class DiskRefsContainer(RefsContainer):
         self._check_refname(name)
         self._check_refname(other)
         filename = self.refpath(name)
+        self._remove_empty_dirs_at(filename)
         ensure_dir_exists(os.path.dirname(filename))
         f = GitFile(filename, "wb")
         try:
@@ -1298,6 +1312,7 @@ class DiskRefsContainer(RefsContainer):
                 raise NotADirectoryError(filename)
             probe_ref = Ref(os.path.dirname(probe_ref))
 
+        self._remove_empty_dirs_at(filename)
         ensure_dir_exists(os.path.dirname(filename))
         with GitFile(filename, "wb") as f:
             if old_ref is not None:
@@ -1375,6 +1390,7 @@ class DiskRefsContainer(RefsContainer):
             realname = name
         self._check_refname(realname)
         filename = self.refpath(realname)
+        self._remove_empty_dirs_at(filename)
         ensure_dir_exists(os.path.dirname(filename))
         with GitFile(filename, "wb") as f:
             if os.path.exists(filename) or name in self.get_packed_refs():
